@@ -125,6 +125,13 @@ class Z3Env:
                 self.syms[e] = z3.Bool(nm)
             else:
                 self.syms[e] = z3.Real(nm)
+            # sympy assumptions on the symbol are facts for the solver too
+            if e.is_positive:
+                self.side.append(self.syms[e] > 0)
+            elif e.is_nonnegative:
+                self.side.append(self.syms[e] >= 0)
+            elif e.is_negative:
+                self.side.append(self.syms[e] < 0)
         return self.syms[e]
 
     def fun(self, name, arg_sorts, ret_sort):
@@ -741,7 +748,9 @@ def mk(e):
         return True
     if e is sp.false:
         return False
-    if isinstance(e, sp.logic.boolalg.Boolean) or isinstance(e, sp.core.relational.Relational):
+    if e.is_Symbol:
+        return mkB(e) if str(e) in EXATOMS else S(e)
+    if isinstance(e, (sp.logic.boolalg.BooleanFunction, sp.core.relational.Relational)):
         return mkB(e)
     return S(e)
 
